@@ -476,13 +476,15 @@ proof fn lemma_tail_left_ok(c: Class, acc: PTerm, op: PKind, t: PTerm)
     ensures p_left_ok(c, p_tail(c, acc, op, t)),
     decreases t, 1nat
 {
-    reveal(p_pass); reveal(p_tail); reveal(p_arity_ok);
+    reveal(p_pass); reveal(p_tail); reveal_with_fuel(p_arity_ok, 2);
     if in_class(c, t.kind) && t.kids.len() == 2 {
         let l = t.kids[0];
         let r = t.kids[1];
+        assert(p_arity_ok(c, l) && p_arity_ok(c, r));
         lemma_pass_left_ok(c, l);
         lemma_pass_shape(c, l);
-        // a left operand of the class can only be a parenthesised one: after the pass it is grouped
+        // a left operand of the class is binary (arity), hence re-associated into a parenthesised node
+        assert(in_class(c, l.kind) ==> l.kids.len() == 2);
         lemma_left_ok_mk(c, op, acc, p_pass(c, l));
         let acc2 = mk(op, acc, p_pass(c, l));
         if in_class(c, r.kind) && !r.group {
